@@ -915,6 +915,60 @@ fn one_case(ctx: &Ctx, case: u64, l: &mut Local) {
             }
         }
     }
+    // ---- JSON only: `payload` given as a JSON OBJECT (the decoded claims, or altered claims) instead of
+    // the signed base64url text
+    if fmt == Fmt::Json {
+        if let Ok(pl) = t.parts.payload() {
+            let mut evil = pl.clone();
+            evil["admin#obj;"] = json!(true);
+            for (k, pv) in [pl.clone(), evil, json!([pl.clone()]), json!(pl.to_string())].iter().enumerate() {
+                let mut m = serde_json::Map::new();
+                m.insert("protected".into(), json!(segs[0]));
+                m.insert("payload".into(), pv.clone());
+                m.insert("signature".into(), json!(segs[2]));
+                m.insert("disclosures".into(), json!(t.parts.disclosures));
+                if let Some(kb) = &t.parts.kb {
+                    m.insert("kb_jwt".into(), json!(kb));
+                }
+                let text = Value::Object(m).to_string();
+                let v = api::verify(&text, &fixed, t.kb.as_ref().map(|(a, n)| (a.as_str(), n.as_str())), fmt);
+                j.l.count("fault.structural.kind.payload-member-not-the-signed-text");
+                j.l.distinct(crate::rng::mix(case ^ gen::hash_str("payload-object") ^ k as u64));
+                j.reject("structural", &format!("payload member is a JSON value, not the signed text ({} JSON)", alg.name()), Some(v), || json!({"variant": k}));
+            }
+        }
+    }
+    // ---- two tamperings that are each rejected, combined: the payload's last character replaced by
+    // one with other trailing bits AND a signature segment that is not base64url at all
+    {
+        let pl_seg = &segs[1];
+        let last = pl_seg.chars().last().unwrap_or('A');
+        let idx = tamper::B64URL.find(last).unwrap_or(0);
+        for d in 1..4usize {
+            let alt = tamper::B64URL.as_bytes()[(idx & !3) | ((idx + d) & 3)] as char;
+            let p2 = format!("{}{}", &pl_seg[..pl_seg.len() - 1], alt);
+            // also a payload that says something else, with the same kind of last character
+            let evil = tamper::reencode_segment(&t.parts.jwt, 1, |v| { v["admin#2c;"] = json!(true); }).and_then(|x| tamper::segments(&x)).map(|s3| s3[1].clone());
+            for p_use in [Some(p2.clone()), evil.map(|e| { let l = e.chars().last().unwrap_or('A'); let i = tamper::B64URL.find(l).unwrap_or(0); format!("{}{}", &e[..e.len() - 1], tamper::B64URL.as_bytes()[(i & !3) | ((i + d) & 3)] as char) })].into_iter().flatten() {
+                for sig in ["!", "", "*", "====", &segs[2][..segs[2].len() - 1], "\u{e9}"] {
+                    structural(&mut j, &format!("payload-trailing-bits-{d}-and-undecodable-signature"), Some(format!("{}.{}.{}", segs[0], p_use, sig)), &fixed);
+                }
+            }
+        }
+    }
+    // ---- Compact only: the whole presentation inside a wrapper (quotes, brackets, a scheme prefix)
+    if fmt == Fmt::Compact {
+        let whole = t.parts.to_compact();
+        for (pre, post) in [("\"", "\""), ("'", "'"), ("<", ">"), ("(", ")"), ("[", "]"), ("{", "}"), ("`", "`"), ("Bearer ", ""), ("\"", ""), ("jwt:", ""), ("\u{feff}", "")] {
+            // (a suffix alone lands in the key-binding slot behind the last '~', which is not part of
+            // the issuer-signed JWT and is ignored when no key binding is requested: not a fault here)
+            let text = format!("{pre}{whole}{post}");
+            let v = api::verify(&text, &fixed, t.kb.as_ref().map(|(a, n)| (a.as_str(), n.as_str())), fmt);
+            j.l.count("fault.structural.kind.wrapped-presentation");
+            j.l.distinct(crate::rng::mix(case ^ gen::hash_str(pre) ^ gen::hash_str(post).rotate_left(9)));
+            j.reject("structural", &format!("presentation wrapped in {pre:?}…{post:?} ({} Compact)", alg.name()), Some(v), || json!({"pre": pre, "post": post}));
+        }
+    }
     // ---- JSON only: the flattened members are NOT intact, but an unknown member carries the intact
     // compact JWT (an "envelope" reader that prefers such a member would accept)
     if fmt == Fmt::Json {
